@@ -24,6 +24,7 @@ import (
 	"net"
 	"reflect"
 	"sort"
+	"strings"
 	"testing"
 
 	"github.com/go-kit/log"
@@ -277,6 +278,20 @@ func TestVerifOrder(t *testing.T) {
 			}
 			out.Case(id, "toconfig", cCtor("CToConfig", cNi(id), vSnapCoq(s), res), map[string]any{"snap": s, "accepted": err0 == nil})
 		}
+		// the whole Config (pools, peers, BFD profiles, extras) and every reason for refusal,
+		// with the validator of the snapshot: Model/CfgFull.v full_to_config
+		{
+			id++
+			res := cNone
+			if err0 == nil {
+				res = cSome(vFullCoq(base))
+				out.Stat("full_accepted", 1)
+			} else {
+				out.Stat("full_rejected", 1)
+				out.Stat("full_rejected: "+vErrClass(err0), 1)
+			}
+			out.Case(id, "full", cCtor("CFull", cNi(id), cVmode(s.Validate), vSnapCoqFull(s), res), map[string]any{"snap": s, "accepted": err0 == nil, "err": fmt.Sprint(err0)})
+		}
 	}
 	vReconcilerSkips(t, out, r, append(replayed, vCorpus()[1]))
 	vReconcilerAllocator(t, out, r, replayed)
@@ -339,7 +354,7 @@ func vReconcilerSkips(t *testing.T, out *vOut, r *rand.Rand, first []vSnap) {
 		for i := range res.Communities {
 			res.Communities[i].Namespace = testNamespace
 		}
-		fc0, err := newFakeClient(objectsFromResources(res))
+		fc0, err := newFakeClient(vObjects(res))
 		if err != nil {
 			t.Fatalf("fake client: %v", err)
 		}
@@ -465,7 +480,7 @@ func vReconcilerAllocator(t *testing.T, out *vOut, r *rand.Rand, first []vSnap) 
 		for i := range res.Communities {
 			res.Communities[i].Namespace = testNamespace
 		}
-		fc0, err := newFakeClient(objectsFromResources(config.ClusterResources{Pools: res.Pools, Communities: res.Communities, Namespaces: res.Namespaces}))
+		fc0, err := newFakeClient(vObjects(config.ClusterResources{Pools: res.Pools, Communities: res.Communities, Namespaces: res.Namespaces}))
 		if err != nil {
 			t.Fatalf("fake client: %v", err)
 		}
@@ -643,4 +658,39 @@ func vReconcilerAllocator(t *testing.T, out *vOut, r *rand.Rand, first []vSnap) 
 		rec()
 		check("the creation of an unrelated namespace")
 	}
+}
+
+// coarse class of a rejection, for the coverage counters only (never compared)
+func vErrClass(err error) string {
+	e := err.Error()
+	for _, k := range []string{"bfd echo enabled", "non existing bfd profile", "parsing bfd profile", "duplicate bfd", "parsing peer", "already exists",
+		"RouterID different", "myAsn different", "on native bgp mode", "bfd profiles section set", "native bgp mode does not support ipv6", "legacy communities",
+		"parsing community", "duplicate definition of community", "invalid community", "secret", "overlaps", "nodeIp", "aggregation length", "local preference", "duplicate definition", "invalid CIDR", "no prefixes", "panic"} {
+		if strings.Contains(e, k) {
+			return k
+		}
+	}
+	return "other"
+}
+
+// every object of the snapshot for the fake API server (objectsFromResources leaves out nodes,
+// namespaces and the extras config map); secrets and the config map live in the MetalLB namespace
+func vObjects(res config.ClusterResources) []client.Object {
+	for k, sec := range res.PasswordSecrets {
+		sec.Namespace = testNamespace
+		res.PasswordSecrets[k] = sec
+	}
+	objs := objectsFromResources(res)
+	for i := range res.Nodes {
+		objs = append(objs, res.Nodes[i].DeepCopy())
+	}
+	for i := range res.Namespaces {
+		objs = append(objs, res.Namespaces[i].DeepCopy())
+	}
+	if res.BGPExtras.Data != nil {
+		cm := res.BGPExtras.DeepCopy()
+		cm.Name, cm.Namespace = bgpExtrasConfigName, testNamespace
+		objs = append(objs, cm)
+	}
+	return objs
 }
